@@ -90,6 +90,11 @@ Section Single.
   Qed.
 End Single.
 
+(* the stored non-equilibrium energy is what the model reports: energy density minus dissipated energy minus equilibrium energy *)
+Lemma reported_is_energy_minus_dissipation_hv lss K G Gn tau (Fv : M) dt (H : M) :
+  E_hv lss (K, G, Gn, tau) Fv dt H - D_hv lss (K, G, Gn, tau) Fv dt H - E_hv_eq (K, G, Gn, tau) H = Wneq_reported_hv lss (K, G, Gn, tau) Fv dt H.
+Proof. rewrite E_hv_bridge, D_hv_bridge. unfold Wneq_reported_hv. ring. Qed.
+
 (* ---- bounds on the integration factor, and the two limits for one branch *)
 Lemma fac_bounds dt tau : 0 < dt -> 0 < tau -> 0 <= 1 - fac dt tau <= dt / tau /\ 0 <= fac dt tau <= tau / dt.
 Proof.
@@ -215,6 +220,42 @@ Section Multi.
       with (fac dt' (taub n p) * fac dt' (taub n p) * x) by (unfold x; ring).
     split; [reflexivity |]. destruct (fac_pos dt' _ Hd' Ht) as [F0 F1]. assert (fac dt' (taub n p) * fac dt' (taub n p) <= 1) by nra. nra.
   Qed.
+
+  (* along ANY sequence of positive steps at held deformation the stored non-equilibrium energy of every branch, and their sum (the
+     W_neq that _energy_density accumulates over the three Prony branches), never increase *)
+  Fixpoint reported_b (n : nat) (Fv : M) (dts : list R) : list R :=
+    match dts with
+    | [] => []
+    | dt :: r => Wneq_reported_b n lss p Fv dt H :: reported_b n (state_new_b n lss expm p Fv dt H) r
+    end.
+  Lemma relaxation_monotone_b n dts : Forall (fun dt => 0 < dt) dts -> forall Fv, nonincreasing (reported_b n Fv dts).
+  Proof.
+    intros Hp. induction Hp as [| dt r Hd Hr IH]; intros Fv; [exact I |]. cbn [reported_b].
+    destruct r as [| dt' r']; [exact I |]. cbn [reported_b nonincreasing]. inversion Hr as [| ? ? Hd' _]; subst. split.
+    - apply relaxation_step_b; assumption.
+    - exact (IH (state_new_b n lss expm p Fv dt H)).
+  Qed.
+  Definition Wneq_total (Fv1 Fv2 Fv3 : M) (dt : R) : R :=
+    Wneq_reported_b 0 lss p Fv1 dt H + Wneq_reported_b 1 lss p Fv2 dt H + Wneq_reported_b 2 lss p Fv3 dt H.
+  Fixpoint reported_total (Fv1 Fv2 Fv3 : M) (dts : list R) : list R :=
+    match dts with
+    | [] => []
+    | dt :: r => Wneq_total Fv1 Fv2 Fv3 dt
+                 :: reported_total (state_new_b 0 lss expm p Fv1 dt H) (state_new_b 1 lss expm p Fv2 dt H) (state_new_b 2 lss expm p Fv3 dt H) r
+    end.
+  Lemma relaxation_monotone_total dts : Forall (fun dt => 0 < dt) dts -> forall Fv1 Fv2 Fv3, nonincreasing (reported_total Fv1 Fv2 Fv3 dts).
+  Proof.
+    intros Hp. induction Hp as [| dt r Hd Hr IH]; intros Fv1 Fv2 Fv3; [exact I |]. cbn [reported_total].
+    destruct r as [| dt' r']; [exact I |]. cbn [reported_total nonincreasing]. inversion Hr as [| ? ? Hd' _]; subst. split.
+    - unfold Wneq_total.
+      destruct (relaxation_step_b 0 Fv1 dt dt' Hd Hd') as [_ L0]. destruct (relaxation_step_b 1 Fv2 dt dt' Hd Hd') as [_ L1].
+      destruct (relaxation_step_b 2 Fv3 dt dt' Hd Hd') as [_ L2]. lra.
+    - apply IH.
+  Qed.
+  (* the sum is what the model reports: energy density minus dissipated energy minus equilibrium energy *)
+  Lemma reported_total_is_energy_minus_dissipation (Fv1 Fv2 Fv3 : M) dt :
+    E_mb lss p Fv1 Fv2 Fv3 dt H - D_mb lss p Fv1 Fv2 Fv3 dt H - E_mb_eq p H = Wneq_total Fv1 Fv2 Fv3 dt.
+  Proof. rewrite E_mb_bridge. unfold D_mb, D_mb_branch, Wneq_total, Wneq_reported_b. unfold_num. q2r. ring. Qed.
 End Multi.
 
 (* limits for the three-branch model *)
